@@ -517,6 +517,20 @@ def check_switch(ck, tu):
                          "%s selects %s, expected %s...>" % (what, ty, prefix), "tlx/container/loser_tree.hpp")
 
 
+def check_trees_in(ck, tu):
+    """the replay and initialisation decision tables for whatever loser-tree classes a translation unit
+    instantiates; used by C05/C06/C07, whose k >= 5 merges stand on these trees"""
+    n = 0
+    for rec, info in CLASSES.items():
+        for fn in tu.find(name="delete_min_insert", record=rec):
+            check_replay(ck, fn, info, fn.rtargs[0] == "true")
+            n += 1
+        for fn in tu.find(record=info["base"]):
+            if fn.name == "init_winner":
+                check_init(ck, fn, info["guarded"], info["pointer"])
+    return n
+
+
 def run(ck):
     ck.explanation = (
         "Decision tables (engine A2) extracted from the instantiated replay loops and init_winner of all eight loser-tree "
